@@ -1,4 +1,5 @@
 import Ww.Model.Sched
+import Ww.Gen.Consts
 import Ww.Proofs.C07
 /-!
 # C10 — Store contents are always expiry-bounded, also after a crash at any point
@@ -51,6 +52,18 @@ theorem stale_session_reported_invalid (s : St) (p : Pid) (hpc : (s.procs p).pc 
     (s1.procs p).pc = .unlock ∧ (s1.procs p).status = 401 ∧ s1.sess = s.sess ∧ s1.idpCur = s.idpCur := by
   unfold step
   simp [hpc, hstale]
+
+/-- **the lease** (constants regenerated from session_manager.go): ten seconds, and shorter than the time a waiter keeps polling -/
+theorem lease_is_ten_seconds :
+    Ww.Gen.Consts.refreshLockDuration = 10 * 1000000000 ∧ Ww.Gen.Consts.refreshLockDuration < Ww.Gen.Consts.refreshAcquireLockTimeout ∧
+    0 < Ww.Gen.Consts.refreshAcquireLockRetryInterval ∧ Ww.Gen.Consts.refreshAcquireLockRetryInterval < Ww.Gen.Consts.refreshAcquireLockTimeout - Ww.Gen.Consts.refreshLockDuration := by decide
+
+/-- **nobody is blocked for longer than the lease**: a waiter that starts polling at `t` (every retry interval, until the acquire time-out) while a dead holder's lock
+    entry - taken at some `t0 ≤ t` - is still there, polls at an instant AFTER the entry's expiry and BEFORE its own time-out, for every `t0`, `t` -/
+theorem waiter_outlasts_dead_holder (t0 t : Int) (h : t0 ≤ t) :
+    ∃ k : Int, 0 ≤ k ∧ t + k * Ww.Gen.Consts.refreshAcquireLockRetryInterval > t0 + Ww.Gen.Consts.refreshLockDuration ∧
+      t + k * Ww.Gen.Consts.refreshAcquireLockRetryInterval < t + Ww.Gen.Consts.refreshAcquireLockTimeout := by
+  refine ⟨1001, by decide, ?_, ?_⟩ <;> simp [Ww.Gen.Consts.refreshAcquireLockRetryInterval, Ww.Gen.Consts.refreshLockDuration, Ww.Gen.Consts.refreshAcquireLockTimeout] <;> omega
 
 -- non-vacuity: the refresher is killed right after the provider answered; the lease passes; a second refresher is answered 401, no lock is left
 example : let s1 := runAll (init (fun _ => .refresh) 0) [.run 0, .run 0, .run 0, .run 0, .run 0, .crash 0, .run 1, .run 1, .run 1, .run 1]
